@@ -140,15 +140,73 @@ func (c *Ctx) decisionList(fd *ast.FuncDecl, subst map[string]string, depth int)
 		return nil, false
 	}
 	p := c.declPkg[fd]
+	// constants are rendered by value, so that a named constant (noMetadataID, nullIdent) reads
+	// like the literal it stands for
+	var renderC func(e ast.Expr) string
+	renderC = func(e ast.Expr) string {
+		if p != nil {
+			if tv, ok := p.TypesInfo.Types[e]; ok && tv.Value != nil {
+				return tv.Value.ExactString()
+			}
+		}
+		switch x := e.(type) {
+		case *ast.ParenExpr:
+			return "(" + renderC(x.X) + ")"
+		case *ast.BinaryExpr:
+			return renderC(x.X) + x.Op.String() + renderC(x.Y)
+		case *ast.UnaryExpr:
+			return x.Op.String() + renderC(x.X)
+		case *ast.SelectorExpr:
+			return renderC(x.X) + "." + x.Sel.Name
+		case *ast.CallExpr:
+			var as []string
+			for _, a := range x.Args {
+				as = append(as, renderC(a))
+			}
+			return renderC(x.Fun) + "(" + strings.Join(as, ",") + ")"
+		}
+		return exprString(e)
+	}
 	render := func(e ast.Expr) string {
-		s := strings.ReplaceAll(exprString(e), " ", "")
+		s := strings.ReplaceAll(renderC(e), " ", "")
 		for from, to := range subst {
 			s = regexp.MustCompile(`\b`+regexp.QuoteMeta(from)+`\b`).ReplaceAllString(s, strings.ReplaceAll(to, "$", "$$"))
 		}
 		return s
 	}
 	var out [][2]string
-	for i, st := range fd.Body.List {
+	// a tagless switch whose arms return is the same decision list: switch { case c1: return a; default: return b }
+	list := fd.Body.List
+	if n := len(list); n > 0 {
+		if sw, ok := list[n-1].(*ast.SwitchStmt); ok && sw.Tag == nil && sw.Init == nil {
+			var flat []ast.Stmt
+			okSw := true
+			for k, cc := range sw.Body.List {
+				cl := cc.(*ast.CaseClause)
+				if len(cl.Body) != 1 {
+					okSw = false
+					break
+				}
+				r, isRet := cl.Body[0].(*ast.ReturnStmt)
+				if !isRet {
+					okSw = false
+					break
+				}
+				switch {
+				case cl.List == nil && k == len(sw.Body.List)-1:
+					flat = append(flat, r)
+				case len(cl.List) == 1:
+					flat = append(flat, &ast.IfStmt{If: cl.Pos(), Cond: cl.List[0], Body: &ast.BlockStmt{List: []ast.Stmt{r}}})
+				default:
+					okSw = false
+				}
+			}
+			if okSw && len(flat) > 0 {
+				list = append(append([]ast.Stmt{}, list[:n-1]...), flat...)
+			}
+		}
+	}
+	for i, st := range list {
 		var cond string
 		var ret *ast.ReturnStmt
 		switch st := st.(type) {
@@ -162,7 +220,7 @@ func (c *Ctx) decisionList(fd *ast.FuncDecl, subst map[string]string, depth int)
 			}
 			cond, ret = render(st.Cond), r
 		case *ast.ReturnStmt:
-			if i != len(fd.Body.List)-1 {
+			if i != len(list)-1 {
 				return nil, false
 			}
 			ret = st
@@ -715,80 +773,119 @@ func ruleMDASSIGN(c *Ctx) []Obligation {
 	if fd == nil {
 		return []Obligation{{Key: "ir.(*Module).AssignMetadataIDs", Verdict: UNDECIDED, Detail: "not found", Tags: []string{"md"}}}
 	}
-	// the `used` set: a local map[int64]bool
-	var used types.Object
-	ast.Inspect(fd.Body, func(nd ast.Node) bool {
-		if as, ok := nd.(*ast.AssignStmt); ok && as.Tok == token.DEFINE && len(as.Lhs) == 1 {
-			if mt, ok := info.TypeOf(as.Rhs[0]).Underlying().(*types.Map); ok {
-				if b, ok := mt.Elem().Underlying().(*types.Basic); ok && b.Kind() == types.Bool && used == nil {
-					used = info.ObjectOf(as.Lhs[0].(*ast.Ident))
-				}
-			}
+	// the `used` set: a map[int64]bool (or set-like map) held in a local or in a field of a
+	// helper object (alloc.used), identified by the object that receives `S[k] = true` inside a
+	// loop over the metadata definitions
+	setObj := func(e ast.Expr) types.Object {
+		switch x := unparen(e).(type) {
+		case *ast.Ident:
+			return info.ObjectOf(x)
+		case *ast.SelectorExpr:
+			return info.ObjectOf(x.Sel)
 		}
-		return true
-	})
+		return nil
+	}
+	isSetMap := func(t types.Type) bool {
+		mt, ok := t.Underlying().(*types.Map)
+		if !ok {
+			return false
+		}
+		switch et := mt.Elem().Underlying().(type) {
+		case *types.Basic:
+			return et.Kind() == types.Bool
+		case *types.Struct:
+			return et.NumFields() == 0
+		}
+		return false
+	}
+	var used types.Object
 	o1 := Obligation{Key: "AssignMetadataIDs collects explicit IDs", Pos: c.pos(fd.Pos()), Verdict: VIOL, Detail: "no `used[id] = true` inside a loop over m.MetadataDefs for IDs other than -1", Tags: []string{"md"}}
 	o2 := Obligation{Key: "AssignMetadataIDs skips used IDs", Pos: c.pos(fd.Pos()), Verdict: VIOL, Detail: "the new ID is not tested against the set of explicit IDs before it is handed out", Tags: []string{"md"}}
-	if used != nil {
-		ast.Inspect(fd.Body, func(nd ast.Node) bool {
-			switch nd := nd.(type) {
-			case *ast.RangeStmt:
-				if strings.HasSuffix(exprString(nd.X), ".MetadataDefs") {
-					ast.Inspect(nd.Body, func(m ast.Node) bool {
-						if as, ok := m.(*ast.AssignStmt); ok && len(as.Lhs) == 1 {
-							if ix, ok := as.Lhs[0].(*ast.IndexExpr); ok {
-								if id, ok := ix.X.(*ast.Ident); ok && info.ObjectOf(id) == used && exprString(as.Rhs[0]) == "true" {
-									o1.Verdict, o1.Pos, o1.Detail = OK, c.pos(as.Pos()), "used[id] = true for every definition with an explicit ID"
-								}
-							}
-						}
-						return true
-					})
+	var collectLoop *ast.RangeStmt
+	ast.Inspect(fd.Body, func(nd ast.Node) bool {
+		rs, ok := nd.(*ast.RangeStmt)
+		if !ok || !strings.HasSuffix(exprString(rs.X), ".MetadataDefs") || collectLoop != nil {
+			return true
+		}
+		ast.Inspect(rs.Body, func(m ast.Node) bool {
+			if as, ok := m.(*ast.AssignStmt); ok && len(as.Lhs) == 1 && len(as.Rhs) == 1 {
+				if ix, ok := as.Lhs[0].(*ast.IndexExpr); ok && isSetMap(info.TypeOf(ix.X)) {
+					if obj := setObj(ix.X); obj != nil {
+						used, collectLoop = obj, rs
+						o1.Verdict, o1.Pos, o1.Detail = OK, c.pos(as.Pos()), "used[id] = … for every definition with an explicit ID"
+					}
 				}
-			case *ast.IfStmt:
-				// if !used[x] { return x }
-				if ue, ok := nd.Cond.(*ast.UnaryExpr); ok && ue.Op == token.NOT {
-					if ix, ok := ue.X.(*ast.IndexExpr); ok {
-						if id, ok := ix.X.(*ast.Ident); ok && info.ObjectOf(id) == used && len(nd.Body.List) == 1 && isReturn1(nd.Body.List[0]) {
-							if exprString(nd.Body.List[0].(*ast.ReturnStmt).Results[0]) == exprString(ix.Index) {
-								o2.Verdict, o2.Pos, o2.Detail = OK, c.pos(nd.Pos()), "candidate returned only if !used[candidate]"
+			}
+			return true
+		})
+		return true
+	})
+	if used != nil {
+		// bodies in which the generator may live: this function (with its closures) and the
+		// functions of the package it calls that mention the set (a method of the helper object)
+		bodies := []*ast.BlockStmt{fd.Body}
+		ast.Inspect(fd.Body, func(nd ast.Node) bool {
+			if call, ok := nd.(*ast.CallExpr); ok {
+				if g := calleeOf(info, call); g != nil && g.Pkg() != nil && g.Pkg().Path() == pkgIR {
+					if gfd := c.funcDecl(g); gfd != nil && gfd.Body != nil && gfd != fd {
+						mentions := false
+						ast.Inspect(gfd.Body, func(m ast.Node) bool {
+							if e, ok := m.(ast.Expr); ok && setObj(e) == used {
+								mentions = true
 							}
+							return true
+						})
+						if mentions {
+							bodies = append(bodies, gfd.Body)
 						}
 					}
 				}
 			}
 			return true
 		})
+		// the candidate advances past used IDs: a `for` loop that looks the candidate up in the
+		// set and increments it (for used[n] { n++ } / for { n++; if !used[n] { return n } })
+		for _, body := range bodies {
+			ast.Inspect(body, func(nd ast.Node) bool {
+				fs, ok := nd.(*ast.ForStmt)
+				if !ok {
+					return true
+				}
+				looks, incs := false, false
+				ast.Inspect(fs, func(m ast.Node) bool {
+					switch x := m.(type) {
+					case *ast.IndexExpr:
+						if setObj(x.X) == used {
+							looks = true
+						}
+					case *ast.IncDecStmt:
+						if x.Tok == token.INC {
+							incs = true
+						}
+					}
+					return true
+				})
+				if looks && incs && o2.Verdict != OK {
+					o2.Verdict, o2.Pos, o2.Detail = OK, c.pos(fs.Pos()), "the candidate is incremented until it is not in the set of used IDs"
+				}
+				return true
+			})
+		}
 	}
 	obs = append(obs, o1, o2)
 	// the loop that records explicit IDs is complete before the first ID is handed out
 	o4 := Obligation{Key: "AssignMetadataIDs knows every explicit ID before handing out any", Pos: c.pos(fd.Pos()), Verdict: UNDECIDED, Detail: "collection loop or SetID call not found", Tags: []string{"md"}}
-	if used != nil {
-		var collectLoop *ast.RangeStmt
+	if used != nil && collectLoop != nil {
 		var firstSet token.Pos
 		ast.Inspect(fd.Body, func(nd ast.Node) bool {
-			switch nd := nd.(type) {
-			case *ast.RangeStmt:
-				if collectLoop == nil {
-					ast.Inspect(nd.Body, func(m ast.Node) bool {
-						if as, ok := m.(*ast.AssignStmt); ok && len(as.Lhs) == 1 {
-							if ix, ok := as.Lhs[0].(*ast.IndexExpr); ok {
-								if id, ok := ix.X.(*ast.Ident); ok && info.ObjectOf(id) == used {
-									collectLoop = nd
-								}
-							}
-						}
-						return true
-					})
-				}
-			case *ast.CallExpr:
-				if se, ok := unparen(nd.Fun).(*ast.SelectorExpr); ok && se.Sel.Name == "SetID" && firstSet == 0 {
-					firstSet = nd.Pos()
+			if call, ok := nd.(*ast.CallExpr); ok {
+				if _, _, isSet := c.idSetCall(info, call); isSet && (firstSet == 0 || call.Pos() < firstSet) {
+					firstSet = call.Pos()
 				}
 			}
 			return true
 		})
-		if collectLoop != nil && firstSet != 0 {
+		if firstSet != 0 {
 			if firstSet > collectLoop.End() {
 				o4.Verdict, o4.Pos, o4.Detail = OK, c.pos(firstSet), "the loop recording explicit IDs ends before the first SetID"
 			} else {
@@ -894,7 +991,23 @@ func ruleMDASSIGN(c *Ctx) []Obligation {
 			o3.Verdict, o3.Pos = VIOL, c.pos(condPos)
 			o3.Detail = condWhat + ": on the paths that skip it, definitions that still have no ID are printed without one (a metadata definition appears as `!{…} = !{…}` and its uses as inline copies), and the duplicate-ID check does not run"
 		case aG == 0 || aM == 0:
-			o3.Verdict, o3.Detail = VIOL, "WriteTo does not call both AssignGlobalIDs and AssignMetadataIDs: unnumbered definitions print with stale or zero IDs"
+			// the calls may sit in a helper WriteTo starts with (m.assignIDs()): NUM-FIRST follows
+			// helpers and holds each call to "unconditional, before anything is written"
+			viaHelper := map[string]bool{}
+			for _, o := range c.runRule("NUM-FIRST") {
+				if o.Verdict == OK && strings.Contains(o.Key, "(*Module)") {
+					for _, r := range []string{"AssignGlobalIDs", "AssignMetadataIDs"} {
+						if strings.Contains(o.Key, "through "+r+" ") {
+							viaHelper[r] = true
+						}
+					}
+				}
+			}
+			if viaHelper["AssignGlobalIDs"] && viaHelper["AssignMetadataIDs"] {
+				o3.Detail = "AssignGlobalIDs and AssignMetadataIDs are called through a helper, unconditionally and before the first write (NUM-FIRST)"
+			} else {
+				o3.Verdict, o3.Detail = VIOL, "WriteTo does not call both AssignGlobalIDs and AssignMetadataIDs: unnumbered definitions print with stale or zero IDs"
+			}
 		case firstWrite != 0 && (aG > firstWrite || aM > firstWrite):
 			o3.Verdict, o3.Detail = VIOL, "output starts before IDs are assigned"
 		default:
